@@ -2,7 +2,7 @@
    driver) -> one output line.  All canonical printing is done here, in Coq, so that the OCaml
    side is a trivial read/print loop. *)
 From VF Require Import Base.Prelude Model.Reader Model.InfoModelDefs.
-From VF Require Import Base.IPText Model.Layout Model.JsonPieces Model.Nf5 Model.Flow Model.Cache Model.Ipfix Model.Nf9 Model.MarshalFlow Base.Json Model.Packet Model.Sflow Model.CacheFile Model.Options.
+From VF Require Import Base.IPText Model.Layout Model.JsonPieces Model.Nf5 Model.Flow Model.Cache Model.Ipfix Model.Nf9 Model.MarshalFlow Base.Json Model.Packet Model.Sflow Model.CacheFile Model.Options Model.Mirror.
 From VF Require Gen.InfoModel Gen.Layouts Gen.JsonPieces Gen.Options.
 
 Inductive tok := TBytes (b : bytes) | TInt (z : Z) | TSym (s : bytes).
@@ -403,6 +403,23 @@ Definition cmd_pipe (args : list tok) : bytes :=
   | _ => s2l "BADARGS"
   end.
 
+(* ---------- mirror (C16) ---------- *)
+(* mirror <ipfix|sflow> <max> <dst> <port> (<src> <payload>)*  ->  per datagram x<packet> | ERR | PANIC *)
+Fixpoint mirror_seq (max sport : Z) (dst : bytes) (port : Z) (args : list tok) : list bytes :=
+  match args with
+  | TBytes src :: TBytes p :: rest =>
+      (match mirror_packet max sport src dst port p with
+       | Ok pk => show_bytes pk | Err _ => s2l "ERR" | Panic => s2l "PANIC" | Hang => s2l "HANG" end)
+      :: mirror_seq max sport dst port rest
+  | _ => []
+  end.
+Definition cmd_mirror (args : list tok) : bytes :=
+  match args with
+  | proto :: TInt max :: TBytes dst :: TInt port :: rest =>
+      intercalate sp (mirror_seq max (if sym_is proto "ipfix" then ipfix_mirror_sport else sflow_mirror_sport) dst port rest)
+  | _ => s2l "BADARGS"
+  end.
+
 Definition dispatch (cmd : bytes) (args : list tok) : bytes :=
   if list_eqb cmd (s2l "reader") then cmd_reader args
   else if list_eqb cmd (s2l "infomodel") then cmd_infomodel args
@@ -416,5 +433,6 @@ Definition dispatch (cmd : bytes) (args : list tok) : bytes :=
   else if list_eqb cmd (s2l "cachebytes") then s2l "SKIP"
   else if list_eqb cmd (s2l "options") then cmd_options args
   else if list_eqb cmd (s2l "pipe") then cmd_pipe args
+  else if list_eqb cmd (s2l "mirror") then cmd_mirror args
   else if list_eqb cmd (s2l "nf9h-abs") then cmd_nf9h_abs args
   else s2l "UNKNOWN-COMMAND".
